@@ -217,6 +217,7 @@ def check_wellformed(case, ctx):
     res2, exc2, oc2, no2, cc2, path2 = call_load(text, other, case["dtype"])
     hygiene(ctx, other, oc2, no2, cc2)
     ctx.check(exc2 is None, "same text refused when delivered as %s: %r", other, exc2)
+    compare(ctx, res2, case, parsed, case["region"], case["gid"], path2 if other == "path" else None, what="file (second delivery)")
     ctx.check(np.array_equal(np.asarray(res.values), np.asarray(res2.values), equal_nan=True)
               and all(np.array_equal(res.coords[k].values, res2.coords[k].values) for k in ("northing", "easting"))
               and res.attrs.get("gridID") == res2.attrs.get("gridID"), "path and file-object deliveries give different grids")
@@ -224,7 +225,8 @@ def check_wellformed(case, ctx):
     ctx.nt(case["nr"] >= 3 and case["nc"] >= 3 and case["nr"] != case["nc"] and bool(case["blanks"]))
 
 
-FAULTS = ["rows+1", "rows-1", "cols+1", "cols-1", "swap_counts", "third_count", "range_shift", "range_scale", "range_swap", "zmin_only",
+FAULTS = ["rows+1", "rows-1", "cols+1", "cols-1", "swap_counts", "third_count", "range_shift", "range_scale", "range_swap", "zmin_only", "count_not_integer",
+          "region_line_one_number", "region_line_text",
           "wrapped_rect", "wrapped_ragged", "drop_last_value", "drop_last_row", "extra_row"]
 
 
@@ -264,6 +266,12 @@ def check_fault(case, ctx):
         override["counts"] = "%d %d" % (nc, nr)
     elif fault == "third_count":
         override["counts"] = "%d %d 1" % (nr, nc)
+    elif fault == "count_not_integer":
+        override["counts"] = "%d.5 %d" % (nr, nc)
+    elif fault == "region_line_one_number":
+        override["sn"] = repr(float(case["region"][2]))
+    elif fault == "region_line_text":
+        override["we"] = "west east"
     elif fault in ("range_shift", "range_scale"):
         lo, hi = zmin, zmax
         if case["which"] in ("min", "both"):
